@@ -3,6 +3,7 @@
 EXTENDS WaitGroup, WaitGroup_gen, Json
 
 VARIABLE hist
+CONSTANT KeepHist   \* TRUE only for behaviour extraction (the _paths configuration)
 
 O(site) == IF site \in DOMAIN OrdTable THEN OrdTable[site] ELSE [o |-> "sc", f |-> "sc", fences |-> <<>>]
 
@@ -13,17 +14,28 @@ MCStep ==
   /\ mm' = MM!MStep(mm, ev'.p, ev'.a, ev'.loc, ev'.ok, O(ev'.site).o, O(ev'.site).f, O(ev'.site).fences, ev'.post)
 
 MCNext ==
-  \/ MCStep /\ hist' = hist
+  \/ MCStep /\ hist' = (IF KeepHist THEN Append(hist, ev') ELSE hist)
   \/ Timeout /\ UNCHANGED mm /\ hist' = hist
   \/ Quiescent /\ UNCHANGED vars /\ UNCHANGED hist
 
 MCSpec == MCInit /\ [][MCNext]_<<vars, hist>>
 
 \* every waiter is eventually released / the coroutine eventually completes, under weak fairness of every thread
-FairSpec == MCSpec /\ \A p \in Proc : WF_<<vars, hist>>(MCStep /\ hist' = hist /\ ev'.p = p)
+FairSpec == MCSpec /\ \A p \in Proc : WF_<<vars, hist>>(MCStep /\ hist' = (IF KeepHist THEN Append(hist, ev') ELSE hist) /\ ev'.p = p)
 EventuallyQuiescent == <>Quiescent
 
 NoRace == MM!NoRace(mm)
 NoStuck == (~ENABLED (MCStep \/ Timeout)) => Quiescent
+\* behaviour extraction: the schedule of every maximal behaviour (used with the _paths config, no VIEW)
+RECURSIVE Str(_)
+Str(sq) == IF sq = <<>> THEN "" ELSE Head(sq) \o Str(Tail(sq))
+PrintPaths ==
+  Quiescent =>
+     PrintT(<<"BEHAVIOUR", ToJson([scen |-> [src |-> Str(scen.src), wts |-> Str(scen.wts)],
+                                   final |-> ExpectedFinal,
+                                   evs |-> [i \in 1..Len(hist) |->
+                                             [p |-> hist[i].p, a |-> hist[i].a, o |-> hist[i].o, old |-> hist[i].old,
+                                              new |-> hist[i].new, ok |-> hist[i].ok, spur |-> hist[i].spur, obs |-> hist[i].obs,
+                                              done |-> hist[i].done]]])>>)
 View == <<scen, cnt, hd, list, cb, freed, dn, jb, timedout, pc, mi, todo, hs, wjob, wph, wret, coro, kcb, rels, touts, err, mm>>
 =============================================================================
